@@ -1033,10 +1033,16 @@ func stringToReflectValue(value string, kind reflect.Kind) (reflect.Value, error
 		return reflect.ValueOf(value), nil
 	case reflect.String:
 		return reflect.ValueOf(value), nil
+	case reflect.Interface:
+		// map[interface{}]V: a property name is a string key
+		return reflect.ValueOf(value), nil
+	case reflect.Struct, reflect.Array, reflect.Chan, reflect.Complex64, reflect.Complex128:
+		// comparable key kinds a property name cannot denote
+		return reflect.Value{}, fmt.Errorf("TypeError: %q is not a key of kind %v", value, kind)
 	}
 
 	// FIXME This should end up as a TypeError?
-	panic(fmt.Errorf("invalid conversion of %q to reflect.Kind: %v", value, kind))
+	panic(newError(nil, "TypeError", 0, "invalid conversion of %q to reflect.Kind: %v", value, kind))
 }
 
 // MarshalJSON implements json.Marshaller.
